@@ -1,6 +1,7 @@
 package c02
 
 import (
+	"sort"
 	"encoding/json"
 	"fmt"
 	"os"
@@ -368,6 +369,122 @@ func TestInListLiteral(t *testing.T) {
 		}
 	}
 	evid.Exhaustive("in over list literals with probed elements", n)
+}
+
+// TestEmptyValuesByEveryRoute: an empty list (string, map) is the same value whatever expression produced it - a literal,
+// a slice of any form that selects nothing, a slice of a literal, a variable - so == / != / in over any two routes, also
+// nested in a list or map literal, follow the rows for two equal collections; add_key stores the JSON text of an empty one.
+func TestEmptyValuesByEveryRoute(t *testing.T) {
+	sl := func(obj *gen.Node, lo, hi, step *gen.Node, c2 bool) *gen.Node { return gen.NSlice(obj, lo, hi, step, c2) }
+	i := gen.NInt
+	lists := func() []*gen.Node {
+		return []*gen.Node{
+			gen.NList(), id("e"), sl(id("l"), i(3), nil, nil, false), sl(id("l"), i(3), nil, i(2), true), sl(id("l"), i(1), i(1), nil, false),
+			sl(id("l"), nil, i(0), nil, false), sl(id("l"), i(0), nil, i(-1), true), sl(id("l"), i(-1), i(-3), nil, false), sl(id("e"), nil, nil, nil, false),
+			sl(id("e"), nil, nil, i(-1), true), sl(gen.NList(i(1), i(2)), i(5), nil, nil, false), sl(sl(id("l"), i(1), nil, nil, false), i(9), nil, nil, false),
+			sl(id("l"), i(2), i(1), i(1), true),
+		}
+	}
+	strs := func() []*gen.Node {
+		return []*gen.Node{gen.NStr(""), id("es"), sl(id("s"), i(3), nil, nil, false), sl(id("s"), i(1), i(1), nil, false), sl(id("s"), i(3), nil, i(2), true),
+			sl(gen.NStr("ab"), i(5), nil, nil, false), sl(id("es"), nil, nil, i(-1), true), gen.NBin("+", gen.NStr(""), id("es"))}
+	}
+	setup := func() []*gen.Node {
+		return []*gen.Node{gen.NSet("l", gen.NList(i(1), i(2), i(3))), gen.NSet("e", gen.NList()), gen.NSet("s", gen.NStr("abc")), gen.NSet("es", gen.NStr(""))}
+	}
+	n := 0
+	for fam, mk := range map[string]func() []*gen.Node{"list": lists, "string": strs} {
+		k := len(mk())
+		for a := 0; a < k; a++ {
+			for b := 0; b < k; b++ {
+				for w := 0; w < 6; w++ {
+					x, y := mk()[a], mk()[b]
+					var e *gen.Node
+					switch w {
+					case 0:
+						e = gen.NBin("==", x, y)
+					case 1:
+						e = gen.NBin("!=", x, y)
+					case 2:
+						e = gen.NBin("in", x, gen.NList(i(0), y))
+					case 3:
+						e = gen.NBin("==", gen.NList(x), gen.NList(y))
+					case 4:
+						e = gen.NBin("==", gen.NMap(gen.NStr("k"), x), gen.NMap(gen.NStr("k"), y))
+					case 5:
+						e = gen.NBin("in", gen.NMap(gen.NStr("k"), x), gen.NList(gen.NMap(gen.NStr("k"), y)))
+					}
+					prog := append(setup(), gen.NCall("probe", gen.NStr("r"), e.Clone(), x.Clone()), gen.NCall("add_key", id("r"), e.Clone()), gen.NCall("add_key", id("xs"), x.Clone()))
+					judge(t, "emptyroutes", sem.NewCase(gen.FixAll(prog)), fmt.Sprintf("emptyroutes/%s/%d/%d/%d", fam, a, b, w), "empty-value-by-route/"+fam)
+					n++
+				}
+			}
+		}
+	}
+	evid.Exhaustive("empty lists and strings produced by every route, compared pairwise", n)
+}
+
+// TestLiteralListsThatJoinAlike: membership in a list literal is decided by the elements, not by any text made of them:
+// pairs of literal lists whose elements joined by some separator (or by nothing) give the same text must still answer for
+// their own elements - in one script, in either order, and in two scripts loaded one after the other.
+func TestLiteralListsThatJoinAlike(t *testing.T) {
+	groups := [][][]string{
+		{{"a,b", "c"}, {"a", "b", "c"}, {"a", "b,c"}, {"a,b,c"}},
+		{{"GET,HEAD", "POST"}, {"GET", "HEAD,POST"}},
+		{{"ab", "c"}, {"a", "bc"}, {"abc"}, {"a", "b", "c"}},
+		{{"a b", "c"}, {"a", "b c"}},
+		{{"a|b", "c"}, {"a", "b|c"}},
+		{{"a\x00b", "c"}, {"a", "b\x00c"}},
+		{{"a\nb", "c"}, {"a", "b\nc"}},
+		{{"", "a"}, {"a", ""}, {"a"}, {"", "", "a"}},
+		{{"1", "2"}, {"12"}, {"1,2"}},
+	}
+	lit := func(el []string) *gen.Node {
+		l := gen.NList()
+		for _, e := range el {
+			l.Args = append(l.Args, gen.NStr(e))
+		}
+		return l
+	}
+	n := 0
+	for gi, g := range groups {
+		needles := map[string]bool{}
+		for _, el := range g {
+			for _, e := range el {
+				needles[e] = true
+			}
+		}
+		var ns []string
+		for e := range needles {
+			ns = append(ns, e)
+		}
+		sort.Strings(ns)
+		for a := range g {
+			for b := range g {
+				if a == b {
+					continue
+				}
+				var prog []*gen.Node
+				for _, nd := range ns {
+					prog = append(prog, gen.NCall("probe", gen.NStr("first"), gen.NBin("in", gen.NStr(nd), lit(g[a]))))
+					prog = append(prog, gen.NCall("probe", gen.NStr("second"), gen.NBin("in", gen.NStr(nd), lit(g[b]))))
+				}
+				prog = append(prog, gen.NCall("probe", gen.NStr("eq"), gen.NBin("==", lit(g[a]), lit(g[b])), gen.NBin("in", lit(g[a]), gen.NList(lit(g[b])))))
+				judge(t, "joinalike", sem.NewCase(gen.FixAll(prog)), fmt.Sprintf("joinalike/%d/%d/%d", gi, a, b), "literal-lists-that-join-alike/one-script")
+				n++
+				// the two lists in two scripts, loaded and run one after the other (each case is a load of its own)
+				for _, which := range []int{a, b} {
+					var p2 []*gen.Node
+					for _, nd := range ns {
+						p2 = append(p2, gen.NCall("probe", gen.NStr("only"), gen.NBin("in", gen.NStr(nd), lit(g[which]))))
+					}
+					judge(t, "joinalike", sem.NewCase(gen.FixAll(p2)), fmt.Sprintf("joinalike/%d/%d/%d/alone%d", gi, a, b, which), "literal-lists-that-join-alike/two-loads")
+					n++
+				}
+			}
+		}
+	}
+	evid.Exhaustive("pairs of literal lists whose joined texts coincide", n)
 }
 
 // TestSelfUpdateForms: `t = t op e`, `t = e op t`, `t = t op t` and `t op= e` evaluate their operands like any other
